@@ -229,6 +229,33 @@ def gen_extlag(r, k, T):
             "pos": pos, "model": {"x": X, "r": RM, "nobias": bias == "none"}}
 
 
+def gen_mts(r, k, T):
+    """multiple time stepping: variable and bias with timeStepFactor f are computed every f-th absolute step"""
+    f = r.choice([2, 3])
+    ext = r.random() < 0.5
+    ex = ["timeStepFactor %d" % f]
+    tags = ["mts", "factor=%d" % f]
+    if ext:
+        ex += ["extendedLagrangian on", "extendedFluctuation 0.5", "extendedTimeConstant 100.0", "extendedLangevinDamping 0.0"]
+        tags.append("extended")
+    cfg = cv_block(0, width=1.0, extra=ex)
+    kind = r.choice(["harmonic", "moving", "meta"])
+    tags.append("bias=" + kind)
+    if kind == "meta":
+        cfg += ["metadynamics {", "  name m", "  colvars v0", "  timeStepFactor %d" % f, "  hillWeight 0.5",
+                "  newHillFrequency %d" % (f * r.choice([1, 2])), "  hillWidth 2.0", "  useGrids off", "}"]
+    else:
+        cfg += ["harmonic {", "  name r", "  colvars v0", "  timeStepFactor %d" % f, "  forceConstant 2.0",
+                "  centers %r" % V.dyadic(r, -1, 1, bits=2)]
+        if kind == "moving":
+            cfg += ["  targetCenters %r" % V.dyadic(r, -1.5, 1.5, bits=2), "  targetNumSteps %d" % (f * r.choice([2, 3, 5])),
+                    "  outputAccumulatedWork on"]
+        cfg.append("}")
+    start = [V.dyadic(r, -1.0, 1.0, bits=3)]
+    return {"fam": "mts", "tags": tags, "sigtags": [], "natoms": 1, "setup": ["dt 1.0", "temperature 300.0"], "config": cfg,
+            "sleep_factor": f, "mts_extended": ext, "it0": r.choice([0, 0, 3, 4]), "pos": walk(r, T, 1, lo=-1.5, hi=1.5, bits=5, stay=0.1, start=start)}
+
+
 # ------------------------------------------------------------------------------------------------ ABMD
 def gen_abmd(r, k, T):
     w = 1.0
@@ -310,6 +337,23 @@ def gen_abf(r, k, T):
     return {"fam": "abf", "tags": tags, "sigtags": [], "natoms": nv, "setup": ["samestep %d" % (1 if same else 0), "includecv 1"],
             "config": cfg + B, "it0": r.choice([0, 0, 4]), "show_tf": True, "tf_lagged": not same,
             "pos": walk(r, T, nv, lo=-3.5, hi=3.5, bits=3), "ef": forces(r, T, nv), "model": M}
+
+
+def gen_pabf(r, k, T):
+    """projected ABF: the bias force is the gradient of the PMF integrated every pABFintegrateFreq steps"""
+    c = gen_abf(r, k, T)
+    while c["model"]["nd"] != 2:      # the PMF gradient by finite differences exists in two and three dimensions only
+        c = gen_abf(r, k, T)
+    freq = r.choice([1, 2, 3, 4])
+    cfg = c["config"]
+    i = cfg.index("abf {")
+    cfg[i + 1:i + 1] = ["  integrate on", "  pABFintegrateFreq %d" % freq]
+    c.pop("model", None)
+    c["fam"] = "pabf"
+    c["tags"] = ["pabf", "freq=%d" % freq] + c["tags"][1:]
+    c["sigtags"] = []
+    c["collapse"] = "all"
+    return c
 
 
 # ------------------------------------------------------------------------------------------------ metadynamics
@@ -522,4 +566,4 @@ def gen_multi(r, k, T):
             "config": cfg + B, "it0": r.choice([0, 4]), "pos": walk(r, T, 2, lo=-2.5, hi=2.5, bits=3), "shuffle": True}
 
 
-FAMILIES = {"multi": gen_multi, "runave": gen_runave, "histrestraint": gen_histrestraint, "eabf": gen_eabf, "opes": gen_opes, "restraint": gen_restraint, "histogram": gen_histogram, "extlag": gen_extlag, "abmd": gen_abmd, "alb": gen_alb, "abf": gen_abf, "meta": gen_meta}
+FAMILIES = {"pabf": gen_pabf, "mts": gen_mts, "multi": gen_multi, "runave": gen_runave, "histrestraint": gen_histrestraint, "eabf": gen_eabf, "opes": gen_opes, "restraint": gen_restraint, "histogram": gen_histogram, "extlag": gen_extlag, "abmd": gen_abmd, "alb": gen_alb, "abf": gen_abf, "meta": gen_meta}
